@@ -175,7 +175,8 @@ def gen_case(rng, cid, profile="mixed"):
             parser.insert(0, {"item": "err", "pending": 0})
             expect["parser"].insert(0, {"item": "err", "f": ""})
 
-    sched = {"seed": rng.randrange(1 << 30), "sleep_pct": 0, "sleep_ms": 0}
+    sched = {"seed": rng.randrange(1 << 30), "sleep_pct": 0, "sleep_ms": 0,
+             "multi_pct": rng.choice([0, 0, 30, 60])}
     if any_delay:
         sched["sleep_pct"] = 25
         sched["sleep_ms"] = any_delay // 1000 + 3
